@@ -99,7 +99,8 @@ class Creators:
           "Only strings and gfapy.Line instances can be added")
     if rt == "#":
       if isinstance(gfa_line, str):
-        gfa_line = gfapy.Line(gfa_line, dialect=self._dialect)
+        gfa_line = gfapy.Line(gfa_line, vlevel=self._vlevel,
+            dialect=self._dialect)
       gfa_line.connect(self)
     elif rt == "H":
       if isinstance(gfa_line, str):
